@@ -90,6 +90,17 @@ func TestC16SQLiteHandlerReplies(t *testing.T) {
 		default:
 			opt.EventBulkInsertNum, opt.EventBulkInsertDur = 50, 2*time.Millisecond
 		}
+		// the handler's cap (default: none). It bounds every filter's limit and the merged answer
+		// as a whole; with a finite cap the REQs of this test carry one filter, for which the two
+		// coincide (how the cap cuts a merged answer of several filters is not claimed)
+		maxLimit := rapid.SampledFrom([]int64{-1, -1, -1, 1, 2, 3, 10}).Draw(t, "max_limit")
+		maxFilters := 3
+		if maxLimit >= 0 {
+			maxFilters = 1
+		}
+		if maxLimit >= 0 {
+			opt.MaxLimit = uint(maxLimit)
+		}
 		h, err := mocsqlite.NewSQLiteHandler(hctx, db, opt)
 		if err != nil {
 			t.Fatalf("handler: %v", err)
@@ -105,6 +116,18 @@ func TestC16SQLiteHandlerReplies(t *testing.T) {
 		nonEmpty := false
 		n := rapid.IntRange(3, 30).Draw(t, "nmsgs")
 		checkReq := func(sub string, fs []*mocrelay.ReqFilter, replies []mocrelay.ServerMsg, exact bool) {
+			if maxLimit >= 0 {
+				// every filter is answered as if its limit were min(limit, MaxLimit)
+				eff := make([]*mocrelay.ReqFilter, len(fs))
+				for i, f := range fs {
+					c := *f
+					if c.Limit == nil || *c.Limit > maxLimit {
+						c.Limit = gen.Ptr(maxLimit)
+					}
+					eff[i] = &c
+				}
+				fs = eff
+			}
 			var evs []*mocrelay.Event
 			for i, r := range replies {
 				switch x := r.(type) {
@@ -187,7 +210,7 @@ func TestC16SQLiteHandlerReplies(t *testing.T) {
 			case k < 16:
 				pool := gen.PoolFromEvents(world.Events, world.Authors)
 				pool.MaxLimit = 4
-				fs := pool.DrawFilters(t, lab, 1, 3)
+				fs := pool.DrawFilters(t, lab, 1, maxFilters)
 				sub := rapid.SampledFrom([]string{"a", "b"}).Draw(t, lab+"sub")
 				types["REQ"] = true
 				briefs = append(briefs, map[string]any{"REQ": sub, "filters": gen.BriefFilters(fs)})
@@ -269,7 +292,7 @@ func TestC16SQLiteHandlerReplies(t *testing.T) {
 		pool := gen.PoolFromEvents(world.Events, world.Authors)
 		pool.MaxLimit = 4
 		for q := 0; q < 3; q++ {
-			fs := pool.DrawFilters(t, fmt.Sprintf("final%d.", q), 1, 3)
+			fs := pool.DrawFilters(t, fmt.Sprintf("final%d.", q), 1, maxFilters)
 			replies, err := s.ask(&mocrelay.ClientReqMsg{SubscriptionID: "f", ReqFilters: fs})
 			if err != nil {
 				hx.Fail(t, ev.Failure{Property: "C16", Signature: "sqlite-handler-stalled", Clause: "REQ is answered", Case: desc(), Observed: err.Error()})
